@@ -1416,6 +1416,38 @@ Section LookupsProofs.
     intros r I. rewrite (C5 r I). unfold is_announce. rewrite Api. reflexivity.
   Qed.
 
+  (* ... hence (Bep44Proofs): the value Get hands to its caller is vouched for by the requested target, comes
+     from a reply of this traversal, and has the greatest seq among all accepted mutable values that
+     reached the owner *)
+  Theorem get_result_sound s g :
+    reachable s -> lc_api c = AGet -> owner_done s = true -> l_cur s = Some g ->
+    vouched sha1 ed_verify (lc_tgt c) (lc_salt c) g /\
+    (exists q a r, In (q, a, r) (l_log s) /\ gr_has_r r = true /\ res_v g = Bep44.r_v (gr_item r) /\ res_sig g = Bep44.r_sig (gr_item r)) /\
+    (res_mutable g = true -> forall it g', In it (l_recv s) ->
+       client_accept sha1 ed_verify (lc_variant c) (lc_tgt c) (lc_salt c) it = AccMut g' -> (res_seq g' <= res_seq g)%Z).
+  Proof.
+    intros R Api D Cur. destruct (get_result_is_client_get s R Api D) as (E & _ & L). rewrite Cur in E.
+    destruct (client_get_sound sha1 ed_verify _ _ _ _ _ E) as (V & it & I & Ev & Es).
+    split; [exact V|]. split.
+    - destruct (L it I) as (q & a & r & Il & <- & Hr). exists q, a, r. repeat split; assumption.
+    - intros M. exact (client_get_max sha1 ed_verify _ _ _ _ _ E M).
+  Qed.
+
+  (* the seq Put asks seqToPut for bounds every accepted mutable seq that reached it, and is one of them (or 0) *)
+  Theorem put_seq_sound s :
+    reachable s -> lc_api c = APut -> owner_done s = true ->
+    (0 <= l_autoseq s)%Z /\
+    (forall it g, In it (l_recv s) -> client_accept sha1 ed_verify (lc_variant c) (lc_tgt c) (lc_salt c) it = AccMut g ->
+       (res_seq g <= l_autoseq s)%Z) /\
+    (l_autoseq s = 0%Z \/ exists it g, In it (l_recv s) /\
+       client_accept sha1 ed_verify (lc_variant c) (lc_tgt c) (lc_salt c) it = AccMut g /\ res_seq g = l_autoseq s) /\
+    (forall r, In r (l_sends s) -> sr_seq r = l_autoseq s).
+  Proof.
+    intros R Api D. destruct (put_seq_is_client_autoseq s R Api D) as (E & S & _).
+    destruct (client_autoseq_spec sha1 ed_verify _ _ _ _ _ _ E) as (A & B & C).
+    repeat split; try assumption; try lia.
+  Qed.
+
   (* the repaired client never dies on a reply *)
   Theorem repaired_no_panic s : reachable s -> lc_variant c = Repaired -> l_panic s = false.
   Proof.
